@@ -112,3 +112,12 @@ GROUPS += [
           flags=["--no-malloc-may-fail"], must_fail=["reach_end", "reach_three_terms", "reach_rejected"], functions=["ILLread_constraint_expr", "add_var"],
           props=["C10", "C11", "C18", "C17"], assumed=["lp/constraint_expr: the scanner functions (ILLread_lp_state_sign / possible_coef / next_var, decided in rdr/lp_scan_*), the symbol table lookup and the raw-problem adders are ghost-recording stubs"]),
 ]
+
+GROUPS += [
+    Group("lp/bounds", "lp_bounds.c", tus=["lp_mpq.c", "rawlp_mpq.c", "allocrus.c"], model=MODEL, dfcc=False, export_static=True, unwind=8, kind="bounded", namebuf=512, timeout=1500, mem_gb=4,
+          remove_bodies=["mpq_ILLraw_colname"],
+          bound="every stream of at most 5 tokens (value in -2..2, sense <= = >=, known / unknown column name, FREE) followed by a section keyword, 2 columns; loops completely unwound; reader buffer capacity 512",
+          flags=["--no-malloc-may-fail"], must_fail=["reach_end", "reach_double_bounded_column", "reach_rejected"],
+          functions=["read_bounds", "read_colname", "ILLraw_set_lowerBound", "ILLraw_set_upperBound", "ILLraw_set_fixedBound", "ILLraw_set_unbound", "ILLraw_init_bounds", "ILLraw_fill_in_bounds"],
+          props=["C10", "C11", "C17"], assumed=["lp/bounds: static read_bounds called through goto-cc --export-file-local-symbols; the character scanner (possible_bound_value, bound_sense, next_var, next_is, prev_field; decided in rdr/lp_scan_*) is replaced by a token cursor; the symbol table lookup is a stub"]),
+]
